@@ -107,6 +107,14 @@ package tags
 //@ ghost wfailed Bool = false
 //@ at call before #1: wfailed = result != nil
 //@ at call after #1: wfailed = result != nil
+//@ ghost opens Int = 0
+//@ ghost closes Int = 0
+//@ ghost beforeFailed Bool = false
+//@ at call before #1: opens = opens + 1
+//@ at call before #1: beforeFailed = result != nil
+//@ at call after #1 before assert afterItsBefore: closes + 1 == opens && arg1 == i
+//@ at call after #1: closes = closes + 1
+//@ ensures balanced: beforeFailed || opens == closes
 //@ ensures writeError: wfailed ==> result != nil
 //@ ghost n Int = 0
 //@ ghost brk Bool = false
@@ -123,6 +131,7 @@ package tags
 //@ at call Set #1 assert innermost: !brk && !failed && !wfailed
 //@ loop 1 invariant count: n == i && 0 <= i && i <= l && l == iter.Len()
 //@ loop 1 invariant running: !brk && !failed && !wfailed
+//@ loop 1 invariant balanced: opens == closes && !beforeFailed
 //@ loop 1 invariant writer: is(w, *render.trimWriter) ==> valid(as(w, *render.trimWriter))
 //@ ensures complete: result == nil && !brk && !decoratorFailed && !wfailed ==> n == iter.Len()
 //@ ensures childError: failed ==> result != nil
